@@ -3,7 +3,7 @@
 // Runtime monitoring of runtime/event, runtime/promise and runtime/valuenotifier:
 //
 //   - valuenotifier (vn.go): every sequential history up to length 7 (8 in the
-//     thorough tier) over {Listener(v), Notify(v), Deregister(l), Wait(l)} is executed
+//     thorough tier) over {Listener(v), Notify(v), Deregister(l), Wait(l), Wait(l) with a cancelled context} is executed
 //     on the real Notifier; "Wait would block" is observed structurally (goroutine
 //     parked in select inside Listener.Wait in a stop-the-world snapshot, then its
 //     context is cancelled). Gated schedules through a context whose Done() method is
@@ -86,7 +86,7 @@ func run(c *vf.Ctx) {
 		replay(c)
 		return
 	}
-	c.SetRule("evaluations = oracle verdicts: one per executed valuenotifier history step that is a Wait (sequential enumeration: every history up to the tier's length over {Listener(v),Notify(v),Deregister(l),Wait(l)}, 2 values, <=3 listeners per value, each history executed on a fresh Notifier and only its last step judged, so every (history, step) pair is judged once), one per gated schedule, one per Wait of a concurrent notifier round, one per (Trigger, hook) pair of an event round (concurrent rounds and the deterministic single-goroutine scenarios in which a hook's callback unhooks itself / its successor / a later / an earlier hook, hooks a new one or re-links a linked event while the Trigger is walking the hooks – all combinations for 2..5 hooks, Event/Event1/Event2, with and without a hook whose WithMaxTriggerCount is exhausted in that Trigger), one per executed trigger-counting history (ev_count.go: histories over Hook/limited Hook on a target and a linked event, Unhook, Trigger of either, LinkTo/unlink, for events with and without WithMaxTriggerCount and all arities Event..Event9, every Trigger's delivered calls and after every step the exported TriggerCount/WasTriggered/MaxTriggerCount/MaxTriggerCountReached of both events and all hooks compared with a model that counts every Trigger call, also those made while no hook is attached; all histories up to the tier's length plus seeded longer ones), one per hook of a concurrent hookless/hooked phase round or limit ladder round, one per promise callback. distinct_nontrivial = distinct sequential histories whose judged step is a Wait on a listener that was created after a Notify of the same value (the re-created-listener pattern the repository test never builds) plus distinct concurrent round configurations (kind/goroutine counts/build) in which at least one pair of constrained operations overlapped on the logical clock")
+	c.SetRule("evaluations = oracle verdicts: one per executed valuenotifier history step that is a Wait (sequential enumeration: every history up to the tier's length over {Listener(v),Notify(v),Deregister(l),Wait(l),Wait(l) with an already cancelled context}, 2 values, <=3 listeners per value, each history executed on a fresh Notifier and only its last step judged, so every (history, step) pair is judged once), one per gated schedule, one per Wait of a concurrent notifier round, one per (Trigger, hook) pair of an event round (concurrent rounds and the deterministic single-goroutine scenarios in which a hook's callback unhooks itself / its successor / a later / an earlier hook, hooks a new one or re-links a linked event while the Trigger is walking the hooks – all combinations for 2..5 hooks, Event/Event1/Event2, with and without a hook whose WithMaxTriggerCount is exhausted in that Trigger), one per executed trigger-counting history (ev_count.go: histories over Hook/limited Hook on a target and a linked event, Unhook, Trigger of either, LinkTo/unlink, for events with and without WithMaxTriggerCount and all arities Event..Event9, every Trigger's delivered calls and after every step the exported TriggerCount/WasTriggered/MaxTriggerCount/MaxTriggerCountReached of both events and all hooks compared with a model that counts every Trigger call, also those made while no hook is attached; all histories up to the tier's length plus seeded longer ones), one per hook of a concurrent hookless/hooked phase round or limit ladder round, one per promise callback. distinct_nontrivial = distinct sequential histories whose judged step is a Wait on a listener that was created after a Notify of the same value (the re-created-listener pattern the repository test never builds) plus distinct concurrent round configurations (kind/goroutine counts/build) in which at least one pair of constrained operations overlapped on the logical clock")
 	maxLen := c.Pick(7, 8)
 	shards := 16
 	workers := runtime.NumCPU()
@@ -145,7 +145,9 @@ func run(c *vf.Ctx) {
 	c.Extra("exhaustive_note", fmt.Sprintf("valuenotifier: all sequential histories of length <= %d (2 values, <= 3 listeners per value) were executed; concurrent rounds are sampled schedules", maxLen))
 	c.Extra("vn_max_history_length", maxLen)
 	c.Require("evaluations", 100000)
-	c.Require("vn_seq_histories", c.Pick(559618, 5406018))
+	c.Require("vn_seq_histories", c.Pick(1615400, 19905680))
+	c.Require("vn_seq_woken_after_older_generation_left", 100)
+	c.Require("vn_seq_cancelled_wait_outcome:canceled", 10000)
 	c.Require("vn_seq_blocked_waits_observed_parked", 10000)
 	c.Require("vn_seq_recreated_listener_waits", 1000)
 	c.Require("vn_gate_window_entered", 100)
